@@ -7,6 +7,10 @@ also exercised against the real thing by vfw/conformance.py):
   zombie; SIGKILL terminates a running process (after ``klat`` seconds);
   signal 0 probes; default-ignored signals do nothing; any other signal is
   handed to the process' scripted behaviour.
+* SIGSTOP stops a process (psutil status STATUS_STOPPED; still "running" for
+  waitpid(WNOHANG) and is_running); while stopped every signal except SIGKILL
+  and SIGCONT stays pending and a scripted delayed exit is frozen; SIGCONT
+  resumes it and the pending signals are delivered in order.
 * waitpid(-1 | pid, WNOHANG): (0, 0) while children exist but none is a
   zombie; ECHILD when there is no such child; otherwise reaps one zombie.
 * a dying process becomes a zombie while its parent is alive and has not
@@ -33,10 +37,12 @@ FIRST_PID = 5000000
 IGNORED_BY_DEFAULT = set(
     int(getattr(_signal, n)) for n in ('SIGCHLD', 'SIGURG', 'SIGWINCH',
                                        'SIGCONT') if hasattr(_signal, n))
-# job-control stops are not modelled: treated as no-ops
+# terminal job-control stops are not modelled: treated as no-ops
 NOT_MODELLED = set(
-    int(getattr(_signal, n)) for n in ('SIGSTOP', 'SIGTSTP', 'SIGTTIN',
+    int(getattr(_signal, n)) for n in ('SIGTSTP', 'SIGTTIN',
                                        'SIGTTOU') if hasattr(_signal, n))
+SIGSTOP = int(_signal.SIGSTOP)
+SIGCONT = int(_signal.SIGCONT)
 
 OBEDIENT = {"react": "die", "delay": 0.0}
 
@@ -52,7 +58,8 @@ def wstatus_signal(sig):
 class SimProc(object):
     __slots__ = ('pid', 'ppid', 'state', 'wstatus', 'beh', 'rec', 'kind',
                  'spawned_at', 'died_at', 'pending_exit', 'wfd', 'owner',
-                 'cause', 'creator')
+                 'cause', 'creator', 'stopped', 'held', 'held_exit',
+                 'pending_cause')
 
     def __init__(self, pid, ppid, beh, kind, t, rec=None, owner=None):
         self.pid = pid
@@ -69,6 +76,10 @@ class SimProc(object):
         self.owner = owner            # watcher name for workers
         self.cause = None
         self.creator = ppid           # original parent, never re-parented
+        self.stopped = False          # SIGSTOPped
+        self.held = []                # signals pending while stopped
+        self.held_exit = None         # (remaining, wstatus, cause) frozen
+        self.pending_cause = None
 
 
 class SimKernel(object):
@@ -110,6 +121,7 @@ class SimKernel(object):
         if p.pending_exit is not None and p.pending_exit[0] <= t:
             return
         p.pending_exit = (t, wstatus)
+        p.pending_cause = cause
         self._seq += 1
         heapq.heappush(self.events, (t, self._seq, pid, wstatus, cause))
 
@@ -310,7 +322,35 @@ class SimKernel(object):
             else:
                 self.schedule_exit(p.pid, now + lat, ws, 'sigkill')
             return
+        if sig == SIGCONT:
+            if p.stopped:
+                p.stopped = False
+                if p.held_exit is not None:
+                    rem, ws, cause = p.held_exit
+                    p.held_exit = None
+                    if rem <= 0:
+                        self._die(p.pid, ws, now, cause)
+                    else:
+                        self.schedule_exit(p.pid, now + rem, ws, cause)
+                held, p.held = p.held, []
+                for s_ in held:
+                    if p.state == 'running':
+                        self._deliver(p, s_)
+            return
+        if sig == SIGSTOP:
+            if not p.stopped:
+                p.stopped = True
+                if p.pending_exit is not None and \
+                        p.pending_cause != 'sigkill':
+                    # a stopped process does not run towards its exit
+                    p.held_exit = (p.pending_exit[0] - now,
+                                   p.pending_exit[1], p.pending_cause)
+                    p.pending_exit = None
+            return
         if sig in IGNORED_BY_DEFAULT or sig in NOT_MODELLED:
+            return
+        if p.stopped:
+            p.held.append(sig)
             return
         react = p.beh.get("react", "die")
         only = p.beh.get("only")           # reacts only to these signals
@@ -402,6 +442,8 @@ class FakeProcess(object):
             raise psutil.NoSuchProcess(self.pid)
         if st == 'zombie':
             return psutil.STATUS_ZOMBIE
+        if self._k.procs[self.pid].stopped:
+            return psutil.STATUS_STOPPED
         return psutil.STATUS_SLEEPING
 
     def is_running(self):
